@@ -193,6 +193,13 @@ def run_tilt(W, cfg):
         route = 'none' if not which else route
     else:
         w = lt.Wavefront(lam) * pupil
+    if route != 'none':
+        for sshape in ((4, 4), (5, 6)):
+            try:
+                lt.propagate_fft(w, pixelscale=du, oversample=1, scratch=W.complexes(f'scr{sshape[0]}', sshape))
+                W.ob_fail('tilted wavefront refused also when a scratch buffer is passed')
+            except NotImplementedError:
+                W.ob_ok('tilted wavefront refused also when a scratch buffer is passed')
     try:
         lt.propagate_fft(w, pixelscale=du, oversample=1)
     except NotImplementedError:
